@@ -890,6 +890,24 @@ class Exprs:
             s = self.as_str(item, node, fr)
             if container.py is not None and s.py is not None:
                 return z3.BoolVal(s.py in container.py)
+            cu = container.units()
+            if cu is not None and s.py is not None and len(s.py) > 0:
+                k = len(s.py)
+                alts = []
+                for st0 in range(0, len(cu) - k + 1):
+                    conj = []
+                    dead = False
+                    for j in range(k):
+                        u = cu[st0 + j]
+                        if isinstance(u, int):
+                            if u != ord(s.py[j]):
+                                dead = True
+                                break
+                        else:
+                            conj.append(u == ord(s.py[j]))
+                    if not dead:
+                        alts.append(z3.And(*conj) if conj else z3.BoolVal(True))
+                return z3.Or(*alts) if alts else z3.BoolVal(False)
             if s.parts and all(not isinstance(p, str) for p in s.parts):
                 # the needle is literally a run of parts of the rope
                 ids = [p.get_id() for p in s.parts]
@@ -1054,6 +1072,13 @@ class Exprs:
                 if (loc is None or z3.is_int_value(loc)) and (hic is None or z3.is_int_value(hic)):
                     r = base.py[(loc.as_long() if loc is not None else None):(hic.as_long() if hic is not None else None)]
                     return VStr(r, is_bytes=base.is_bytes)
+            us = base.units()
+            if us is not None:
+                loc2 = z3.simplify(lo) if lo is not None else None
+                hic2 = z3.simplify(hi) if hi is not None else None
+                if (loc2 is None or z3.is_int_value(loc2)) and (hic2 is None or z3.is_int_value(hic2)):
+                    sub = us[(loc2.as_long() if loc2 is not None else None):(hic2.as_long() if hic2 is not None else None)]
+                    return VStr([chr(x) if isinstance(x, int) else z3.Unit(x) for x in sub], is_bytes=base.is_bytes)
             ln = z3.Length(base.t)
             if lo is not None and hi is not None:
                 kk = z3.simplify(hi - lo)
